@@ -107,7 +107,15 @@ fn run_case<T: Sc>(ctx: &Ctx, c: &Case, prop: &str, tt: &TTable, seed: u64) {
     let m = c.fam.m();
     let p = c.fam.p();
     let n = c.n;
-    let cj = || case_json(c);
+    let cj = || {
+        let mut v = case_json(c);
+        if prop == "C14" {
+            if let Some(prev) = PREVIOUS_CASE.with(|p| p.borrow().clone()) {
+                v["preceded_by"] = prev;
+            }
+        }
+        v
+    };
     let model = make_t::<T>(&pr.spec, c.prov, &pr.a0);
     let ymat = DMatrix::from_column_slice(n, 1, pr.y.as_slice());
     let built = guarded(|| prob::build(model, &ymat, pr.w.as_ref(), if c.eps != 0.0 { Some(T::f(c.eps)) } else { None }, Api::Single, c.par));
@@ -485,7 +493,9 @@ fn run_case<T: Sc>(ctx: &Ctx, c: &Case, prop: &str, tt: &TTable, seed: u64) {
                 }
                 compared_any = true;
                 let expect = t_ref * q.sqrt();
-                let tol = (2e-4 + rounding) * expect;
+                // the quantile routine of the `distrs` dependency is accurate to about 2e-4 relative and, close to the median
+                // (p below ~1e-8, where it returns exactly 0), to about 1e-8 absolute in t
+                let tol = (2e-4 + rounding) * expect + 1e-8 * q.sqrt();
                 let ratio = (got - expect).abs() / tol.max(1e-300);
                 ctx.with(|s| s.max("C14_band_vs_reference", ratio));
                 if !(ratio <= 1.0) {
@@ -686,6 +696,13 @@ fn cov_cases(thorough: bool) -> Vec<Case> {
                             }
                             for (prov, par) in [(Prov::Hand, false), (Prov::Built, false), (Prov::Built, true)] {
                                 v.push(Case { fam: fam.clone(), n, prov, par, w, noise_variant: nv, level: 1e-3, amp, solver: 0, f32_, eps: 0.0 });
+                                // high signal-to-noise ratios: relative residuals of 1e-5 and (f64) 1e-9
+                                if prov == Prov::Hand && amp == 1.0 && nv == 1 {
+                                    v.push(Case { fam: fam.clone(), n, prov, par, w, noise_variant: nv, level: 1e-5, amp, solver: 0, f32_, eps: 0.0 });
+                                    if !f32_ {
+                                        v.push(Case { fam: fam.clone(), n, prov, par, w, noise_variant: nv, level: 1e-9, amp, solver: 0, f32_, eps: 0.0 });
+                                    }
+                                }
                             }
                         }
                     }
@@ -735,12 +752,18 @@ fn band_cases(thorough: bool) -> Vec<Case> {
     v
 }
 
+thread_local! {
+    /// the case this worker ran immediately before (C14: a quantile memoised across fits shows only with its predecessor)
+    static PREVIOUS_CASE: std::cell::RefCell<Option<Value>> = std::cell::RefCell::new(None);
+}
+
 fn dispatch(ctx: &Ctx, c: &Case, prop: &str, t64: &TTable, t32: &TTable, seed: u64) {
     if c.f32_ {
         run_case::<f32>(ctx, c, prop, t32, seed)
     } else {
         run_case::<f64>(ctx, c, prop, t64, seed)
     }
+    PREVIOUS_CASE.with(|p| *p.borrow_mut() = Some(case_json(c)));
 }
 
 fn main() {
@@ -759,6 +782,13 @@ fn main() {
                     run_fault_sweep::<f64>(&ctx, &c, seed)
                 }
             } else {
+                let inner = if v.get("case").is_some() { &v["case"] } else { &v };
+                if let Some(prev) = inner.get("preceded_by") {
+                    if prev.is_object() {
+                        let pc = case_parse(prev);
+                        dispatch(&ctx, &pc, &prop, &t64, &t32, seed);
+                    }
+                }
                 dispatch(&ctx, &c, &prop, &t64, &t32, seed);
             }
             return;
